@@ -13,7 +13,8 @@
     for all inputs is listed stage by stage, following DESIGN.md section C10. *)
 From Coq Require Import ZArith List Bool String Lia.
 From FV Require Import Model.PegSyntax Model.Peg Model.PegWf Model.ParserStrings Model.ParserAst Model.ParserActions
-     Model.Parser Gen.Grammar Proofs.PegProofs Proofs.ParserProofs Proofs.ParserLexProofs.
+     Model.Parser Gen.Grammar Proofs.PegProofs Proofs.ParserProofs Proofs.ParserLexProofs
+     Proofs.ParserEvals Proofs.ParserRoundTrip.
 Import ListNotations.
 Open Scope Z_scope.
 
@@ -111,6 +112,41 @@ Theorem c10_int_const_roundtrip : forall z follow f cr o es fr,
 Proof. exact int_const_roundtrip. Qed.
 Print Assumptions c10_int_const_roundtrip.
 
+(** * Stage 4 (the part that holds). Blanks and line breaks between tokens
+    The rule _ consumes exactly a run of blanks (space, tab, CR) and the rule __ exactly a run of
+    blanks and line breaks, whatever their number and mix, when followed by end of input or by a
+    character that starts neither a blank, a line break nor a comment; the value is the list of the
+    consumed characters and no error is recorded.  [evals e cr st fr R]: every sufficient depth
+    budget makes the interpreter answer R. *)
+Theorem c10_blank_gap_independence :
+  (forall g s cr o es fr, run_of p_blank g -> head_not [32; 9; 13; 47] s ->
+     evals (CRef 56) cr (mkst (g ++ s) o es) fr
+           (Done true (VList (bytes_vals g)) (mkst s (o + Z.of_nat (List.length g)) es) fr))
+  /\ (forall g s cr o es fr, run_of p_wsnl g -> head_not [32; 9; 13; 10; 47; 35] s ->
+     evals (CRef 55) cr (mkst (g ++ s) o es) fr
+           (Done true (VList (bytes_vals g)) (mkst s (o + Z.of_nat (List.length g)) es) fr)).
+Proof. exact (conj gap_inline gap_free). Qed.
+Print Assumptions c10_blank_gap_independence.
+
+(** * Stage 5. parse (render s m) = m, proved for the fragment "typedefs of base types"
+    For every list of typedef declarations
+        typedef <blanks> base <blanks> name <blanks> LF <blanks and line breaks>
+    (base one of the eight base-type keywords, name ANY identifier-shaped byte string, all four
+    gaps arbitrary, possibly empty, runs) preceded by arbitrary blanks and line breaks, the parser
+    model -- Grammar rule, Statement, FrugalStatement (the four failing alternatives before
+    TypeDef), TypeDef, FieldType, BaseType, BaseTypeName, Identifier, _, __, EOS (its failing
+    first alternative included), EOF, and the actions Grammar1, Statement1, TypeDef1, FieldType1,
+    BaseType1, BaseTypeName1, Identifier1 -- returns exactly the declared typedefs, in order, with
+    no comment and no annotations, and nothing else.
+    PARTIAL with respect to the property: the other declaration kinds, comments, annotations,
+    constants and the ';' / end-of-file statement terminators are not inside the proved fragment
+    (they are covered by the correspondence runs only). *)
+Theorem c10_roundtrip_partial : forall (w0 : bytes) (ds : list td_spec),
+  run_of p_wsnl w0 -> Forall td_ok ds ->
+  parse_idl (w0 ++ render_all ds) = POk (typedefs_only (map typedef_of ds)).
+Proof. exact roundtrip_typedefs. Qed.
+Print Assumptions c10_roundtrip_partial.
+
 (** * Stage 2 and the separator/comment stages: refuted on the code as it is.
     Intended statement (FieldType longest match): for every identifier x that is not a base-type
     keyword, [typedef x T] parses to a typedef of the named type x.
@@ -190,6 +226,24 @@ Example c10_int_const_nonvacuous :
   render_int (-9223372036854775808) = [45; 57; 50; 50; 51; 51; 55; 50; 48; 51; 54; 56; 53; 52; 55; 55; 53; 56; 48; 56]
   /\ stops p_digit [59].
 Proof. split; [vm_compute; reflexivity | split; [unfold ascii; lia | reflexivity]]. Qed.
+
+(** two typedefs satisfying the hypotheses of the round-trip theorem, in two different styles *)
+Example c10_roundtrip_nonvacuous :
+  let d1 := mk_td [32] [105; 51; 50] [32; 9] 105 [51; 50; 120; 95] [] [10; 32] in        (* typedef i32 <sp><tab>i32x_<lf><lf><sp> *)
+  let d2 := mk_td [] [115; 116; 114; 105; 110; 103] [] 95 [] [13] [] in                   (* typedefstring_<cr><lf> *)
+  td_ok d1 /\ td_ok d2
+  /\ parse_idl ([10; 9] ++ render_all [d1; d2])
+     = POk (typedefs_only [mktypedef None [105; 51; 50; 120; 95] (PType [105; 51; 50] None None []) [];
+                           mktypedef None [95] (PType [115; 116; 114; 105; 110; 103] None None []) []]).
+Proof.
+  assert (K : forall d, td_ok d <-> td_ok d) by (intros; tauto).
+  split; [|split].
+  - repeat split; cbn; try reflexivity; try (repeat constructor; unfold ascii; lia); try (unfold ascii; lia); try lia;
+      try (unfold is_base, base_lits; cbn; repeat (first [left; reflexivity | right])).
+  - repeat split; cbn; try reflexivity; try (repeat constructor; unfold ascii; lia); try (unfold ascii; lia); try lia;
+      try (unfold is_base, base_lits; cbn; repeat (first [left; reflexivity | right])).
+  - vm_compute. reflexivity.
+Qed.
 
 (** a whole file through the model *)
 Example c10_parse_nonvacuous :
